@@ -44,10 +44,11 @@ def catalogue(include_watershed=True, include_hmax=False, include_hp01=False):
     if include_watershed and include_hp01:
         C["hp01"] = lambda da, aux: da.spec.partition.hp01(aux["wspd"], aux["wdir"], aux["dpt"], swells=2,
                                                            hs_min=0.45 * float(da.spec.hs().max()))
+        C["hp01_nowind"] = lambda da, aux: da.spec.partition.hp01(swells=2, hs_min=0.45 * float(da.spec.hs().max()))
     return C
 
 
-WATERSHED = {"ptm1", "ptm2", "ptm3", "ptm1_smooth", "hp01"}
+WATERSHED = {"ptm1", "ptm2", "ptm3", "ptm1_smooth", "hp01", "hp01_nowind"}
 FLOAT32_OUT = {"tp", "fp", "tp_discrete", "dp", "dpm", "dpspr", "alpha", "gamma", "stats", "scale_by_hs"}
 
 
@@ -62,7 +63,7 @@ def _dd(da):
     return min(x, 360 - x)
 
 
-PART_HEADS = {"ptm1": 1, "ptm1_smooth": 1, "ptm2": 2, "ptm3": 0, "hp01": 1}
+PART_HEADS = {"ptm1": 1, "ptm1_smooth": 1, "ptm2": 2, "ptm3": 0, "hp01": 1, "hp01_nowind": 1}
 
 
 def sort_parts(c, heads):
